@@ -481,3 +481,52 @@ func c12WriteErr(c *Ctx) {
 	r.Counts["cleartext_writer_calls"] = n
 	r.Min("C12.writeerr", 2)
 }
+
+// ---------------------------------------------------------------- C12.rsapad
+//
+// RSA private key components are serialised at fixed widths: d as long as n,
+// dP and qInv (crt) as long as p, dQ as long as q (RFC 8017: dP < p, dQ < q,
+// qInv < p). Padding a component to the width of the other prime refuses (or
+// truncates) valid keys whose primes differ in length. Confirmed table over
+// the Pad calls of internal/signature.AdjustEncodingLengths, by parameter name.
+func c12RSAPad(c *Ctx) {
+	p, r := c.P, c.R
+	f := p.PkgFunc("internal/signature", "AdjustEncodingLengths")
+	if f == nil {
+		r.AnchorMissing("C12.rsapad", "internal/signature.AdjustEncodingLengths")
+		return
+	}
+	want := map[string]string{"d": "n", "dp": "p", "dq": "q", "crt": "p"}
+	seen := map[string]bool{}
+	paramName := func(v ssa.Value) string {
+		if prm, ok := guard.Strip(v).(*ssa.Parameter); ok {
+			return prm.Name()
+		}
+		return ""
+	}
+	allInstrs(f, func(ins ssa.Instruction) {
+		call, ok := ins.(*ssa.Call)
+		if !ok || !strings.HasSuffix(guard.CalleeName(&call.Call), "internal/signature.Pad") || len(call.Call.Args) != 2 {
+			return
+		}
+		comp := paramName(call.Call.Args[0])
+		w, has := want[comp]
+		if !has {
+			return
+		}
+		seen[comp] = true
+		got := ""
+		if lc, _ := guard.CallOf(call.Call.Args[1]); lc != nil {
+			if b, isB := lc.Call.Value.(*ssa.Builtin); isB && b.Name() == "len" {
+				got = paramName(lc.Call.Args[0])
+			}
+		}
+		r.Check(got == w, "C12.rsapad", "C12.rsapad/AdjustEncodingLengths/"+comp, p.Pos(ins.Pos()),
+			fmt.Sprintf("%s is padded to len(%s); its width is that of %s (RFC 8017 §3.2): keys whose primes differ in byte length are refused or their component truncated", comp, got, w), "Pad("+comp+", len("+w+"))")
+	})
+	for comp := range want {
+		if !seen[comp] {
+			r.Bad("C12.rsapad", "C12.rsapad/AdjustEncodingLengths/"+comp, p.FuncPos(f), "component "+comp+" is not padded to a fixed width")
+		}
+	}
+}
